@@ -20,9 +20,33 @@ struct Case {
     ver: Option<Vec<u8>>, // None = VER tag absent
     srv: Option<Vec<u8>>,
     label: String,
+    /// additional tags around the request's own: 0 none, 1 SIG (sorts before VER), 2 SIG + DELE
+    /// (before VER / between NONC and ZZZZ), 3 PAD (after ZZZZ)
+    extra: u8,
 }
 
 fn build(c: &Case, n: u64) -> Vec<u8> {
+    if c.extra > 0 {
+        let mut pairs: Vec<(&str, Vec<u8>)> = vec![("NONC", nonce(n, 32))];
+        if let Some(v) = &c.ver {
+            pairs.push(("VER", v.clone()));
+        }
+        if let Some(s) = &c.srv {
+            pairs.push(("SRV", s.clone()));
+        }
+        match c.extra {
+            1 => pairs.push(("SIG", vec![0x51; 64])),
+            2 => {
+                pairs.push(("SIG", vec![0x51; 64]));
+                pairs.push(("DELE", vec![0x52; 8]));
+            }
+            _ => pairs.push(("PAD", vec![0x53; 8])),
+        }
+        let k = pairs.len() + 1;
+        let used = 12 + 4 + 4 * (k - 1) + 4 * k + pairs.iter().map(|p| p.1.len()).sum::<usize>();
+        pairs.push(("ZZZZ", vec![0u8; 1024 - used]));
+        return rtref::codec::frame(&rtref::codec::Msg::from_pairs(&pairs).encode());
+    }
     match &c.ver {
         Some(v) => ietf_request(v, c.srv.as_deref(), &nonce(n, 32), 1024),
         None => {
@@ -69,7 +93,7 @@ pub fn run(ctx: &Ctx) -> Result<(), String> {
     // truth table: every VER list of length 0..=maxlen over 5 values (+ VER absent) x SRV {absent, correct, wrong}
     let srvs: Vec<(&str, Option<Vec<u8>>)> = vec![("absent", None), ("correct", Some(srv_ok.clone())), ("wrong", Some(other_srv.clone()))];
     for (sl, s) in &srvs {
-        cases.push(Case { ver: None, srv: s.clone(), label: format!("ver-absent/srv-{}", sl) });
+        cases.push(Case { ver: None, srv: s.clone(), label: format!("ver-absent/srv-{}", sl), extra: 0 });
         for len in 0..=maxlen {
             for mut idx in 0..5usize.pow(len as u32) {
                 let mut v = vec![];
@@ -77,7 +101,24 @@ pub fn run(ctx: &Ctx) -> Result<(), String> {
                     v.extend_from_slice(&VERS[idx % 5]);
                     idx /= 5;
                 }
-                cases.push(Case { ver: Some(v), srv: s.clone(), label: format!("verlist/srv-{}", sl) });
+                cases.push(Case { ver: Some(v), srv: s.clone(), label: format!("verlist/srv-{}", sl), extra: 0 });
+            }
+        }
+    }
+    // the same table for lists of length <= 2 with additional tags around the request's own (the
+    // position of VER / SRV / NONC among the fields changes; the verdict must not)
+    for extra in 1..=3u8 {
+        for (sl, s) in &srvs {
+            cases.push(Case { ver: None, srv: s.clone(), label: format!("ver-absent/srv-{}/extra-tags", sl), extra });
+            for len in 0..=2usize {
+                for mut idx in 0..5usize.pow(len as u32) {
+                    let mut v = vec![];
+                    for _ in 0..len {
+                        v.extend_from_slice(&VERS[idx % 5]);
+                        idx /= 5;
+                    }
+                    cases.push(Case { ver: Some(v), srv: s.clone(), label: format!("verlist/srv-{}/extra-tags", sl), extra });
+                }
             }
         }
     }
@@ -86,12 +127,12 @@ pub fn run(ctx: &Ctx) -> Result<(), String> {
     for bit in 0..256 {
         let mut s = srv_ok.clone();
         s[bit / 8] ^= 1 << (bit % 8);
-        cases.push(Case { ver: Some(VER_IETF13.to_vec()), srv: Some(s), label: "srv-bitflip".into() });
+        cases.push(Case { ver: Some(VER_IETF13.to_vec()), srv: Some(s), label: "srv-bitflip".into(), extra: 0 });
     }
     for l in [0usize, 4, 28, 36, 64] {
         let mut s = srv_ok.clone();
         s.resize(l, 0x11);
-        cases.push(Case { ver: Some(VER_IETF13.to_vec()), srv: Some(s), label: "srv-length".into() });
+        cases.push(Case { ver: Some(VER_IETF13.to_vec()), srv: Some(s), label: "srv-length".into(), extra: 0 });
     }
     // a VER value that is not a multiple of 4 cannot be encoded (values are aligned); a trailing
     // partial list is therefore outside the wire format and not part of the space.
@@ -199,7 +240,7 @@ pub fn run(ctx: &Ctx) -> Result<(), String> {
     ctx.cov("outcome_classes", json!(cls));
     ctx.cov("exhaustive", json!(true));
     ctx.cov("bound", json!({"ver_list_len_max": maxlen, "ver_alphabet": VERS.iter().map(|v| hex(v)).collect::<Vec<_>>(), "srv_bitflips": 256}));
-    ctx.cov("rule", json!(format!("truth table: every VER list of length 0..={} over {{draft-13, classic 0, 0x80000001, 0x8000000b, 0xffffffff}} plus VER absent, x SRV {{absent, correct, another server's}}; for the minimal list SRV under each of the 256 single-bit corruptions and lengths 0/4/28/36/64. Each request is one transition on a long-running real in-process Server (one per shard, alive-check by sentinel at the end); the whole table runs in five server states: batch_size 64 one request per poll cycle, batch_size 1/2/4 with requests arriving in groups that fill the batch exactly, and batch_size 64 after a full batch of 64 valid requests. Oracle (3-valued): must answer iff draft-13 among the first four entries and SRV absent/correct; must not answer if the list lacks draft-13 or SRV differs; may if draft-13 only at position >= 5; every reply authentic with SREP.VER = draft-13 and VERS containing it.", maxlen)));
+    ctx.cov("rule", json!(format!("truth table: every VER list of length 0..={} over {{draft-13, classic 0, 0x80000001, 0x8000000b, 0xffffffff}} plus VER absent, x SRV {{absent, correct, another server's}}; the lists of length <= 2 again with additional tags (SIG before VER; SIG and DELE; PAD after ZZZZ) that move VER/SRV/NONC to other field positions; for the minimal list SRV under each of the 256 single-bit corruptions and lengths 0/4/28/36/64. Each request is one transition on a long-running real in-process Server (one per shard, alive-check by sentinel at the end); the whole table runs in five server states: batch_size 64 one request per poll cycle, batch_size 1/2/4 with requests arriving in groups that fill the batch exactly, and batch_size 64 after a full batch of 64 valid requests. Oracle (3-valued): must answer iff draft-13 among the first four entries and SRV absent/correct; must not answer if the list lacks draft-13 or SRV differs; may if draft-13 only at position >= 5; every reply authentic with SREP.VER = draft-13 and VERS containing it.", maxlen)));
     ctx.sample(json!({"ver":"0b000080 00000000 0c000080","srv":"absent","expect":"must-answer"}));
     ctx.sample(json!({"ver":"00000000 x4 then 0c000080","srv":"correct","expect":"may-answer"}));
     ctx.sample(json!({"ver":"0c000080","srv":"bit 17 flipped","expect":"must-not-answer"}));
@@ -244,7 +285,7 @@ pub fn replay_case(c: &Value) -> Result<Option<String>, String> {
         // rebuild from ver/srv
         let ver = c["ver"].as_str().map(crypto::unhex);
         let srv = c["srv"].as_str().map(crypto::unhex);
-        let case = Case { ver, srv, label: "replay".into() };
+        let case = Case { ver, srv, label: "replay".into(), extra: 0 };
         let d = build(&case, 1);
         return replay_bytes(&d);
     }
